@@ -145,5 +145,9 @@ impl Context {
         ensures *r == old(self).target, *final(r) == final(self).target, final(self).trace == old(self).trace, final(self).state == old(self).state,
     { &mut self.target }
 }
+pub assume_specification<T, E> [std::result::Result::<std::option::Option<T>, E>::transpose](r: Result<Option<T>, E>) -> (o: Option<Result<T, E>>)
+    ensures o == (match r { Ok(Some(x)) => Some(Ok::<T, E>(x)), Ok(None) => None::<Result<T, E>>, Err(e) => Some(Err::<T, E>(e)) });
+pub assume_specification<T, E> [std::option::Option::<std::result::Result<T, E>>::transpose](o: Option<Result<T, E>>) -> (r: Result<Option<T>, E>)
+    ensures r == (match o { Some(Ok(x)) => Ok::<Option<T>, E>(Some(x)), None => Ok::<Option<T>, E>(None), Some(Err(e)) => Err::<Option<T>, E>(e) });
 pub assume_specification<T> [std::option::Option::<std::option::Option<T>>::flatten](o: Option<Option<T>>) -> (r: Option<T>)
     ensures r == (match o { Some(Some(x)) => Some(x), _ => None::<T> });
